@@ -172,6 +172,10 @@ def rule_flow(ctx, rep, rid='R1'):
             dur = 'Duration' in sty
             if is_vec and dur:
                 ok, why = _vec_duration_flow(cad, b, pay, tr)
+                if not ok:
+                    lp = _vec_loop(cad, T.body, T, UNIT.get(tr, '?'))
+                    if lp is not None and lp[1]:
+                        ok, why = True, ''
                 rep.ob(rid, inst, ok, b.where(), 'each element converted in place, order and length kept' if ok else why)
                 continue
             ok, why, narrow = lossless(pay, sty, allow_narrow=dur)
@@ -271,6 +275,14 @@ def rule_units_and_guard(ctx, rep, units=True):
                     anyc = (bi, ct)
                 if term_callee_is(ct, 'as core::iter::traits::iterator::Iterator>::map'):
                     mapc = (bi, ct)
+            if anyc is None and mapc is None:
+                res = _vec_loop(cad, b, T, unit)
+                if res is not None:
+                    n_casts += 1
+                    oku, okx, why = res
+                    rep.ob('R2', inst, oku, b.where(), 'each element converted with %s()' % unit if oku else 'elements are not converted with %s(), the unit for this kind' % unit)
+                    rep.ob('R3', inst, okx, b.where(), 'loop over the whole list: an element above u64::MAX returns InvalidInput, every other element is pushed once, in order' if okx else why)
+                    continue
             if anyc is None and mapc is not None:
                 res = _vec_checked(cad, b, T, mapc, unit)
                 if res is not None:
@@ -377,6 +389,61 @@ def _vec_checked(cad, b, T, mapc, unit):
             all(r[0] == 'adt' and r[2] == 'Err' and deep_peel(dict(r[3])['0']) == field_of(('payload', coll[1], 'Err'), '0', 0) for r in rc['err'])
         why = 'the collected Result is not passed on as Ok(values) / Err(the element error)'
     return oku, okx, why
+
+
+def _vec_loop(cad, ib, T, unit):
+    """`for d in list { let x = d.unit(); if x > u64::MAX { return Err(InvalidInput) } out.push(x as u64) } Ok(Packed(out))`
+    -> None if the body is not of that shape, else (unit ok, exact/complete ok, why)."""
+    from .fmtout import iter_source
+    live = lambda bi: not ib.blocks[bi]['cleanup'] and not ib.blocks[bi].get('dead')
+    nx = [bi for bi, t in ib.calls() if live(bi) and callee_is(t, 'as core::iter::traits::iterator::Iterator>::next')]
+    pushes = [bi for bi, t in ib.calls() if live(bi) and callee_is(t, 'alloc::vec::Vec::push')]
+    if len(nx) != 1 or len(pushes) != 1:
+        return None
+    nct = norm(T.call_term(nx[0]))
+    src, enum = iter_source(nct[2][0])
+    whole = strip_views(src) == ('param', 1) and not enum
+    item = field_of(('payload', nct, 'Some'), '0', 0)
+    pct = norm(T.call_term(pushes[0]))
+    val = pct[2][1]
+    if not (val[0] == 'cast' and val[1] == 'IntToInt' and val[2] == 'u128' and val[3] == 'u64'):
+        return True, False, 'pushed element is not `<128-bit count> as u64`: %s' % fmt(val)[:80]
+    x = val[4]
+    acc = [y for y in walk(x) if y[0] == 'call' and isinstance(y[1], str) and y[1].startswith('core::time::Duration::')]
+    oku = len(acc) == 1 and x == acc[0] and acc[0][1] == 'core::time::Duration::' + unit and deep_peel(strip_views(acc[0][2][0])) == deep_peel(item)
+    verdict, why = _guard_exact(T, ib, pushes[0], x)
+    if not verdict:
+        return oku, False, why
+    if not whole:
+        return oku, False, 'the loop does not run over the whole argument list'
+    oe = outcome_edges(T, nx[0])
+    some_t = [s for (bb, s), v in oe.items() if v == 'ok']
+    none_t = [s for (bb, s), v in oe.items() if v == 'err']
+    if not some_t or not none_t:
+        return oku, False, 'result of next() not examined'
+    from .. import cfg as C_
+    every = all(C_.must_pass(ib, s, {nx[0]}, {pushes[0]}) for s in some_t)
+    twice = pushes[0] in reach(ib, ib.succs(pushes[0], False), stop=lambda q: q == nx[0])
+    if not every or twice:
+        return oku, False, 'an element can be skipped or pushed twice'
+    rts = ret_terms(T, none_t)
+    okr = bool(rts)
+    for r in rts:
+        if not (r[0] == 'adt' and r[2] == 'Ok' and dict(r[3])['0'][0] == 'adt' and dict(r[3])['0'][1] == MV):
+            okr = False
+            continue
+        v = dict(dict(r[3])['0'][3])['0']
+        root = v
+        while root[0] in ('mutated', 'ref', 'deref'):
+            root = root[1]
+        recv = pct[2][0]
+        while recv[0] in ('mutated', 'ref', 'deref'):
+            recv = recv[1]
+        if not (term_callee_is(root, 'alloc::vec::Vec::with_capacity', 'alloc::vec::Vec::new') and recv == root):
+            okr = False
+    if not okr:
+        return oku, False, 'after the loop the collected vector is not what is returned'
+    return oku, True, ''
 
 
 def _block_of_cast(b, frm, to):
